@@ -6,10 +6,23 @@ META = dict(
     engine="coq+hx_core",
     technique="Coq proof about the executable database model + differential correspondence of the extracted model with the real agdb on generated query "
               "histories and on an exhaustive enumeration of small multigraphs, with a direct reachability/distance oracle on the implementation's answers",
-    # PLACEHOLDER level_text — to be rewritten by the proof agent once coq/Props/C14.v is final
-    level_text="PLACEHOLDER (proof agent rewrites this): theorems of coq/Props/C14.v about the traversal functions of coq/theories/Search.v "
-               "(origin first, exactly the reachable elements once each, BFS distance order, DFS branch order); the model is tied to /repo by "
-               "differential execution (random search-profile histories + every multigraph up to the enumeration bound).",
+    level_text="Machine-checked theorems (coq/Props/C14.v, all FULL, closed under the global context) about the model of SearchImpl and its four lazy iterators "
+               "(coq/theories/Search.v search_loop/expand/graph_search, revision with all fix: commits) for every database whose slot graph satisfies the explicit "
+               "adjacency hypothesis adj_ok (coq/theories/AdjOk.v: each node's out/in chain ends within the fuel, has no duplicates and enumerates exactly its edges; "
+               "edge endpoints are nodes; decidable checker adj_okb proved sound; to be discharged from the graph invariant of C08), for every existing NODE or EDGE "
+               "as origin, forward and reverse: C14_lazy_eq_eager_bfs / _dfs: the implementation's result equals the textbook eager BFS (queue of (element, distance), "
+               "all edges of a dequeued node enqueued newest first, far endpoint of a dequeued edge enqueued, visited test on dequeue) resp. eager DFS (stack) "
+               "specification, by a lock-step simulation in which every pending edge item of the lazy work list stands for the remaining sibling chain starting at it; "
+               "C14_bfs_reachable: the BFS result starts with the origin, has no duplicates, contains exactly the elements reachable by node->edge->endpoint steps, "
+               "its distances are non-decreasing and each equals the length of a shortest alternating path (every node and edge step counts 1); "
+               "C14_dfs_preorder: the DFS result starts with the origin, no duplicates, exactly the reachable elements, and is the pre-order of the recursive "
+               "newest-edge-first depth-first search (each branch followed to its end before backtracking); C14_traversal_exact (same directly on graph_search), "
+               "C14_search_query_forward / _reverse (at the level of SearchQuery::search), C14_no_fuel (the loop's fuel is never exhausted). "
+               "Witness theorems document two repaired defects: C14_edge_origin_pinned_refuted (before fix 23600df a search from an edge returned its unreachable "
+               "older sibling) and C14_visited_chain_refuted (found by this proof: with that fix alone the already visited origin edge cut its node's lazy edge list "
+               "and reachable older siblings were lost; repaired by fix 7e27fbc). The model is tied to /repo on every run by differential execution of the extracted "
+               "model against the real agdb: random search-profile histories plus EVERY multigraph up to the enumeration bound (all origins, BFS/DFS, both "
+               "directions: identical result order), together with a direct reachability/distance oracle on the implementation's answers.",
     design_ref="DESIGN.md §5 C14",
     level_note="Trusted: Coq kernel, extraction (ExtrOcamlBasic), OCaml driver, Rust harness/generators. Theorems are about the model (theories/Search.v etc.); "
                "the tie to the code is differential execution of generated histories and of the exhaustive small-graph enumeration (every query result compared).",
